@@ -816,6 +816,17 @@ class Oracle:
             self.probe("config_edited")
         elif obs.kind == "SETCFG":
             return self._check_setcfg(obs)
+        elif obs.kind == "SAMEDIR":
+            if obs.exc is not None:
+                return None if self.c19 else self._v("18a", "creating a second named cache raised %r" % (obs.exc,), obs)
+            if obs.result is not None:
+                self.probe("second_cache_on_same_directory_" + obs.result[0])
+                if obs.result[0] == "accepted" and not self.c19:
+                    n_files = len(cache_files(obs.post, self.cd))
+                    if obs.length is not None and obs.length != n_files:
+                        return self._v("18d", "a second named cache was accepted on the directory of the first one (path given as "
+                                       "%r); after a request through it len(cache)=%d but %d cache files are on disk"
+                                       % (obs.result[1], obs.length, n_files), obs)
         elif obs.kind == "SETDIR":
             if obs.exc is not None:
                 return self._v("19d-poison" if self.c19 else "18a", "managing directive functions (%s %s) raised %r"
